@@ -11,6 +11,7 @@ import z3
 
 Z3_TIMEOUT_MS = int(os.environ.get("RVERIF_Z3_MS", "30000"))
 CVC5_TIMEOUT_S = int(os.environ.get("RVERIF_CVC5_S", "60"))
+QUICK_MS = int(os.environ.get("RVERIF_Z3_QUICK_MS", "4000"))
 CVC5_BIN = "/usr/bin/cvc5"
 
 
@@ -51,20 +52,24 @@ def check_valid(hyps, goal, z3_ms=None, use_cvc5=True, tactic=None):
     """Is `AND hyps => goal` valid?  unsat = yes; sat = counter-model; unknown."""
     z3_ms = z3_ms or Z3_TIMEOUT_MS
     t0 = time.time()
-    s = z3.Solver()
-    s.set("timeout", z3_ms)
-    for h in hyps:
-        s.add(h)
-    s.add(z3.Not(goal))
-    r = s.check()
-    dt = time.time() - t0
+    quick_ms = min(z3_ms, QUICK_MS)
+
+    def default(ms):
+        s = z3.Solver()
+        s.set("timeout", ms)
+        for h in hyps:
+            s.add(h)
+        s.add(z3.Not(goal))
+        return s, s.check()
+
+    # stage 1: z3's default strategy with a short budget (decides almost everything in milliseconds)
+    s, r = default(quick_ms)
     if r == z3.unsat:
-        return Verdict("unsat", "z3", dt)
+        return Verdict("unsat", "z3", time.time() - t0)
     if r == z3.sat:
-        return Verdict("sat", "z3", dt, _model_dict(s.model()))
+        return Verdict("sat", "z3", time.time() - t0, _model_dict(s.model()))
     reason = s.reason_unknown()
-    # second try: nonlinear tactic
-    t1 = time.time()
+    # stage 2: the nonlinear tactic (quantifier- and UF-free VCs over products of reals), full budget
     try:
         s2 = z3.Then("simplify", "solve-eqs", "qfnra-nlsat").solver()
         s2.set("timeout", z3_ms)
@@ -78,6 +83,14 @@ def check_valid(hyps, goal, z3_ms=None, use_cvc5=True, tactic=None):
             return Verdict("sat", "z3-nlsat", time.time() - t0, _model_dict(s2.model()))
     except z3.Z3Exception:
         pass
+    # stage 3: the default strategy again with the full budget
+    if quick_ms < z3_ms:
+        s, r = default(z3_ms)
+        if r == z3.unsat:
+            return Verdict("unsat", "z3", time.time() - t0)
+        if r == z3.sat:
+            return Verdict("sat", "z3", time.time() - t0, _model_dict(s.model()))
+        reason = s.reason_unknown()
     if use_cvc5 and os.path.exists(CVC5_BIN):
         v = _cvc5(s, time.time() - t0)
         if v is not None:
